@@ -202,7 +202,7 @@ package moss
 // ---- building a segment (C19) ------------------------------------------------------------
 
 //@ func (a *segment) mutateEx(operation uint64, keyStart, keyLength, valLength int) error
-//@   props C19
+//@   props C19 C01
 //@   requires a != nil && len(a.kvs) % 2 == 0 && keyLength >= 0 && valLength >= 0 && keyStart >= 0
 //@   modifies a.kvs, elems(a.kvs), a.totOperationSet, a.totOperationDel, a.totOperationMerge, a.totKeyByte, a.totValByte
 //@   ensures @keyTooLarge keyLength > maxKeyLength ==> result == ErrKeyTooLarge && a.kvs == old(a.kvs)
@@ -372,7 +372,7 @@ package moss
 //@   trusted deferred-sort ticket protocol abstracted: the segments under contract are sorted already, for which this is a no-op
 
 //@ func (ss *segmentStack) get(key []byte, segStart int, base *segmentStack, readOptions ReadOptions) ([]byte, error)
-//@   props C01 C08 C10
+//@   props C01 C08 C10 C13
 //@   requires stackOK(ss) && -1 <= segStart && segStart < len(ss.a) && (base != nil ==> stackOK(base))
 //@   ensures @read r1 == nil ==> r0 == readFrom(ss, segStart, key, base, readOptions.SkipLowerLevel)
 //@   loop 1: invariant -1 <= seg && seg <= segStart
@@ -380,12 +380,12 @@ package moss
 //@   loop 1: decreases seg + 1
 
 //@ func (ss *segmentStack) getMerged(key, val []byte, segStart int, base *segmentStack, readOptions ReadOptions) ([]byte, error)
-//@   props C01 C08
+//@   props C01 C08 C13
 //@   requires stackOK(ss) && -1 <= segStart && segStart < len(ss.a) && (base != nil ==> stackOK(base))
 //@   ensures @once r1 == nil ==> r0 == fullMerge(moOf(ss), key, readFrom(ss, segStart, key, base, readOptions.SkipLowerLevel), val)
 
 //@ func (ss *segmentStack) Get(key []byte, readOptions ReadOptions) ([]byte, error)
-//@   props C01 C10
+//@   props C01 C10 C13
 //@   requires stackOK(ss)
 //@   ensures @read r1 == nil ==> r0 == readFrom(ss, len(ss.a) - 1, key, nil, readOptions.SkipLowerLevel)
 
@@ -426,7 +426,7 @@ package moss
 //@   ensures w.refCount == old(w.refCount) - 1
 
 //@ func (m *collection) get(key []byte, readOptions ReadOptions) ([]byte, error)
-//@   props C10
+//@   props C10 C03
 //@   requires m != nil && !held(m.m)
 //@   modifies heap(SnapshotWrapper.refCount), heap(SnapshotWrapper.ss), heap(SnapshotWrapper.closer)
 //@   ensures @unlocked !held(m.m)
@@ -459,6 +459,24 @@ package moss
 //@   loop 2: modifies rv.CurOps, rv.CurBytes, rv.CurSegments
 //@   loop 2: invariant rv.CurSegments >= len(ss.a)
 //@   loop 2: invariant rv.CurSegments == 0 ==> (forall c string :: visited(c) ==> treeEmpty(ss.childSegStacks[c]))
+
+// "Nothing to persist" must mean the whole tree: persist() skips a round when
+// this answers true (a batch that touches only child collections has no
+// top-level segment).
+//@ func (ss *segmentStack) isEmpty() bool
+//@   props C04 C20 C11 C01 C13
+//@   requires treeOK(ss)
+//@   ensures @tree result == treeEmpty(ss)
+//@   loop 1: invariant forall c string :: visited(c) ==> treeEmpty(ss.childSegStacks[c])
+
+// A child snapshot handed out holds its own count on the child stack.
+//@ func (ss *segmentStack) ChildCollectionSnapshot(childCollectionName string) (Snapshot, error)
+//@   props C02 C15 C11
+//@   requires ss != nil
+//@   modifies heap(segmentStack.refs)
+//@   ensures @absent !has(ss.childSegStacks, childCollectionName) ==> r0 == nil && r1 == nil
+//@   ensures @counted has(ss.childSegStacks, childCollectionName) ==> r1 == nil && r0 == ifaceOf(ss.childSegStacks[childCollectionName]) &&
+//@       ss.childSegStacks[childCollectionName].refs == old(ss.childSegStacks[childCollectionName].refs) + 1
 
 //@ func (m *collection) statsSegmentsLOCKED(rv *CollectionStats)
 //@   props C20
@@ -668,14 +686,14 @@ package moss
 //@ pure func footerStack(footer *Footer) *segmentStack = ite(footer != nil, footer.ss, nil)
 // rv.a == fs.a[sp:] ++ higher.a  (fs.a taken as empty when there is no footer stack)
 //@ pure func mergedSeq(rv *segmentStack, fs *segmentStack, sp int, higher *segmentStack) bool =
-//@     rv != nil && rv.incarNum == higher.incarNum &&
+//@     rv != nil && rv.incarNum == higher.incarNum && rv.lowerLevelSnapshot == nil &&
 //@     (fs == nil ==> len(rv.a) == len(higher.a) && (forall j int :: 0 <= j && j < len(higher.a) ==> rv.a[j] == higher.a[j])) &&
 //@     (fs != nil ==> len(rv.a) == len(fs.a) - sp + len(higher.a) &&
 //@         (forall i int :: 0 <= i && i < len(fs.a) - sp ==> rv.a[i] == fs.a[sp + i]) &&
 //@         (forall j int :: 0 <= j && j < len(higher.a) ==> rv.a[len(fs.a) - sp + j] == higher.a[j]))
 
 //@ func (s *Store) mergeSegStacks(footer *Footer, splicePoint int, higher *segmentStack) (rv, rvBase *segmentStack)
-//@   props C07 C11
+//@   props C07 C11 C04 C08
 //@   requires @args higher != nil && (footer != nil && footer.ss != nil ==> 0 <= splicePoint && splicePoint <= len(footer.ss.a))
 //@   ensures @fresh rv != nil && fresh(rv) && fresh(arr(rv.a))
 //@   ensures @concat mergedSeq(rv, footerStack(footer), splicePoint, higher)
@@ -689,6 +707,65 @@ package moss
 //@   loop 1: invariant rv.childSegStacks != nil ==> sinceLoop(rv.childSegStacks)
 //@   loop 1: invariant @children forall c string :: visited(c) ==> has(rv.childSegStacks, c) &&
 //@       mergedSeq(rv.childSegStacks[c], footerStack(liveChildFooter(footer, c, higher.childSegStacks[c].incarNum)), 0, higher.childSegStacks[c])
+
+// ---- the merger's merge of a stack (C01, C08, C13, C20) ------------------------------------------------
+
+// mergedSeg(d, ss, lo, hi, base): segment d holds, for every key that occurs in
+// levels lo..hi-1 of ss, one entry that reads exactly like those levels read
+// on top of levels 0..lo-1, then base, then the lower level of ss (Merge
+// operands folded in order against what lies below, or kept as operands).
+// The relation is established only by mergeInto (trusted: the heap iterator
+// it is built on is not under contract) and is what merge() must carry.
+//@ pure abstract func mergedSeg(d *segment, ss *segmentStack, lo int, hi int, base *segmentStack) bool
+
+// Tombstones may only be dropped when nothing at all lies below the merged
+// levels: no older level, no base stack, no lower level.
+//@ func (ss *segmentStack) mergeInto(minSegmentLevel, maxSegmentHeight int, dest SegmentMutator, base *segmentStack, includeDeletions, optimizeTail bool, cancelCh chan struct{}) error
+//@   trusted the heap iterator (container/heap over segment cursors) and its use here are not under contract; see DESIGN.md (bounded stand-in for the iterator)
+//@   requires @levels ss != nil && 0 <= minSegmentLevel && minSegmentLevel <= maxSegmentHeight && maxSegmentHeight <= len(ss.a)
+//@   requires @dest typeIs(dest, "*segment") && ptrOf(dest, "*segment") != nil
+//@   requires @keepsTombstones includeDeletions || (minSegmentLevel == 0 && base == nil && ss.lowerLevelSnapshot == nil)
+//@   modifies fields(ptrOf(dest, "*segment")), elems(ptrOf(dest, "*segment").kvs), elems(ptrOf(dest, "*segment").buf)
+//@   ensures result == nil ==> segOK(ptrOf(dest, "*segment")) && mergedSeg(ptrOf(dest, "*segment"), ss, minSegmentLevel, maxSegmentHeight, base)
+
+//@ func (ss *segmentStack) calcTargetTopLevel() int
+//@   props C01 C08
+//@   requires stackOK(ss)
+//@   ensures 0 <= result && (len(ss.a) >= 2 ==> result <= len(ss.a) - 2) && (len(ss.a) < 2 ==> result == 0)
+//@   loop 1: invariant 0 <= newTopLevel && (maxTopLevel >= 0 ==> newTopLevel <= maxTopLevel) && (maxTopLevel < 0 ==> newTopLevel == 0)
+
+//@ func newSegment(totalOps, totalKeyValBytes int) (*segment, error)
+//@   props C01 C19
+//@   attr obligations ensures
+//@   requires totalOps >= 0
+//@   ensures r1 == nil && r0 != nil && fresh(r0) && len(r0.kvs) == 0 && len(r0.buf) == 0 && fresh(arr(r0.kvs)) && fresh(arr(r0.buf))
+
+// The stack the merger builds: the untouched older levels, then one segment
+// that stands for all the levels above them; same lower level, same
+// incarnation.  The base a child is merged over is the base's child of the
+// SAME incarnation (a recreated child must not see its predecessor).
+//@ pure func mergedTop(rv *segmentStack, ss *segmentStack, base *segmentStack) bool = rv != nil && len(rv.a) >= 1 && len(rv.a) - 1 <= len(ss.a) &&
+//@     (forall i int :: 0 <= i && i < len(rv.a) - 1 ==> segIfc(rv, i) == segIfc(ss, i)) &&
+//@     typeIs(segIfc(rv, len(rv.a) - 1), "*segment") && mergedSeg(segAt(rv, len(rv.a) - 1), ss, len(rv.a) - 1, len(ss.a), base) &&
+//@     rv.lowerLevelSnapshot == ss.lowerLevelSnapshot && rv.incarNum == ss.incarNum && rv.options == ss.options
+//@ pure func baseFor(base *segmentStack, c string, inc uint64) *segmentStack =
+//@     ite(base != nil && has(base.childSegStacks, c) && base.childSegStacks[c].incarNum == inc, base.childSegStacks[c], nil)
+
+//@ func (ss *segmentStack) merge(mergeAll bool, base *segmentStack) (*segmentStack, uint64, error)
+//@   props C01 C08 C13 C20 C11
+//@   attr obligations ensures inv-entry inv-preserve call-requires
+//@   attr only-labels top children keepsTombstones levels dest
+//@   requires ss != nil
+//@   modifies heap(SnapshotWrapper.refCount), heap(SnapshotWrapper.ss), heap(SnapshotWrapper.closer), heap(CollectionStats.TotSnapshotInternalClose)
+//@   ensures @top r2 == nil ==> r0 != nil && fresh(r0) && mergedTop(r0, ss, base)
+//@   ensures @children r2 == nil ==> (forall c string :: has(ss.childSegStacks, c) ==> has(r0.childSegStacks, c) &&
+//@       mergedTop(r0.childSegStacks[c], ss.childSegStacks[c], baseFor(base, c, ss.childSegStacks[c].incarNum)))
+//@   loop 1: invariant newTopLevel <= i && totOps >= 0
+//@   loop 2: modifies rv.childSegStacks, heap(SnapshotWrapper.refCount), heap(SnapshotWrapper.ss), heap(SnapshotWrapper.closer), heap(CollectionStats.TotSnapshotInternalClose)
+//@   loop 2: invariant rv != nil && fresh(rv) && mergedTop(rv, ss, base)
+//@   loop 2: invariant rv.childSegStacks != nil ==> sinceLoop(rv.childSegStacks)
+//@   loop 2: invariant @children forall c string :: visited(c) ==> has(rv.childSegStacks, c) &&
+//@       mergedTop(rv.childSegStacks[c], ss.childSegStacks[c], baseFor(base, c, ss.childSegStacks[c].incarNum))
 
 // ---- building the footer of a persistence round (C04, C11, C12) --------------------------------------
 
@@ -722,7 +799,7 @@ package moss
 // right.SegmentLocs == left.SegmentLocs[0:sp] ++ old(right.SegmentLocs); child
 // footers are left alone (child collections are compacted fully).
 //@ func (right *Footer) spliceFooter(left *Footer, splicePoint int)
-//@   props C07 C11
+//@   props C07 C11 C04
 //@   requires @args right != nil && left != nil && right != left && 0 <= splicePoint && splicePoint <= len(left.SegmentLocs)
 //@   modifies right.SegmentLocs
 //@   ensures @len len(right.SegmentLocs) == splicePoint + old(len(right.SegmentLocs))
@@ -732,7 +809,7 @@ package moss
 // The footer written by a compaction belongs to the incarnation of the stack
 // it was built from and has exactly that stack's children.
 //@ func (s *Store) writeSegments(newSS, base *segmentStack, frefCompact *FileRef, fileCompact File, includeDeletes bool, syncAfterBytes int) (compactFooter *Footer, err error)
-//@   props C07 C11
+//@   props C07 C11 C04
 //@   attr obligations ensures
 //@   requires newSS != nil
 //@   modifies s.totCompactionBeforeBytes
@@ -776,8 +853,21 @@ package moss
 // (the recovery scan itself is the subject of C05).
 //@ pure abstract func scanAt(fref *FileRef, pos int64) *Footer
 //@ func (f *Footer) segmentLocs() (SegmentLocs, *segmentStack)
-//@   trusted adds a reference (C15) and returns the footer's segment locations
+//@   props C15 C02
+//@   requires f != nil
+//@   modifies f.refs
 //@   ensures r0 == f.SegmentLocs && r1 == f.ss
+//@   ensures @counted f.refs == old(f.refs) + 1
+
+// A value handed out by a store snapshot is a private copy unless the caller
+// asked for NoCopyValue: it stays valid after the snapshot (and the mapping
+// it was read from) is gone.
+//@ func (f *Footer) Get(key []byte, readOptions ReadOptions) ([]byte, error)
+//@   props C10 C02
+//@   attr obligations ensures
+//@   requires f != nil && (f.ss != nil ==> stackOK(f.ss))
+//@   modifies *
+//@   ensures @copied r1 == nil && r0 != nil && !readOptions.NoCopyValue ==> fresh(arr(r0))
 
 //@ func (s *Store) snapshotPrevious(ss Snapshot) (Snapshot, error)
 //@   props C12
@@ -1165,7 +1255,7 @@ package moss
 // stack) and drops the cached snapshot; the back-pressure bound is kept; a
 // closed collection refuses non-empty batches.
 //@ func (m *collection) ExecuteBatch(bIn Batch, writeOptions WriteOptions) error
-//@   props C03 C16 C01
+//@   props C03 C16 C01 C02
 //@   attr obligations lock-inv region guarded lock ensures inv-entry inv-preserve
 //@   requires m != nil && m.options != nil && !m.options.DeferredSort && !held(m.m) && m.stats != nil && DefaultCollectionOptions.MaxPreMergerBatches >= 1
 //@   requires typeIs(bIn, "*batch") && ptrOf(bIn, "*batch") != nil ==> ptrOf(bIn, "*batch").segment != nil && segValid(ptrOf(bIn, "*batch").segment) && ptrOf(bIn, "*batch").segment.index == nil && ptrOf(bIn, "*batch") != deletedChildBatchMarker
@@ -1196,7 +1286,7 @@ package moss
 // one critical section, and wakes the persister when it does; a base section
 // that is still being persisted is never replaced.
 //@ func (m *collection) mergerNotifyPersister()
-//@   props C13 C16
+//@   props C13 C16 C04 C01
 //@   attr obligations lock-inv region guarded lock
 //@   requires m != nil && m.options != nil && !held(m.m) && m.stats != nil
 //@   modifies *
